@@ -210,7 +210,7 @@ def confirm(chk, cat, ents, nm, viol, pats, names, label, binary):
 
 
 def body(chk):
-    lengths = [4, 5, 6, 7, 8] if chk.quick else [1, 2, 3, 4, 5, 6, 7, 8, 9, 10]
+    lengths = [4, 5, 6, 7, 8, 10] if chk.quick else [1, 2, 3, 4, 5, 6, 7, 8, 9, 10, 11]
     cases = []
     for L in lengths:
         cases.append((L, 0, False))
